@@ -66,7 +66,9 @@ func sanitizeSelectionSet(ctx *PlanningContext, selectionSet ast.SelectionSet, i
 				childSelectionSet = sanitizeUnionInlineFragment(ctx, childSelectionSet, s)
 				result = addSelectionSetToSanitizedResult(result, childSelectionSet...)
 			default:
-				result = addSelectionSetToSanitizedResult(result, childSelectionSet...)
+				// the fragment is dissolved into its parent, what its directives say (@skip, @include)
+				// goes on with every selection it held
+				result = addSelectionSetToSanitizedResult(result, withDirectives(childSelectionSet, s.Directives)...)
 			}
 
 		}
@@ -164,6 +166,11 @@ func addScrubFieldsToSelectionSet(ctx *PlanningContext, selectionSet ast.Selecti
 	isFoundIDField := isContainsField(selectionSet, common.IDFieldName)
 
 	if isFoundIDField {
+		// an id which a directive can switch off (it came out of a fragment with @skip / @include) is
+		// no id to stitch by: ask for one more, and leave it in the answer since the client may see its own
+		if !isContainsUnconditionalIDField(selectionSet) {
+			selectionSet = addIDFieldToSelectionSet(selectionSet)
+		}
 		return selectionSet, addedFields
 	}
 
@@ -172,6 +179,45 @@ func addScrubFieldsToSelectionSet(ctx *PlanningContext, selectionSet ast.Selecti
 	addedFields = append(addedFields, common.IDFieldName)
 
 	return selectionSet, addedFields
+}
+
+func isContainsUnconditionalIDField(selectionSet ast.SelectionSet) bool {
+	for _, selection := range selectionSet {
+		switch sel := selection.(type) {
+		case *ast.Field:
+			if sel.Name == common.IDFieldName && len(sel.Directives) == 0 {
+				return true
+			}
+		case *ast.InlineFragment:
+			if len(sel.Directives) == 0 && isContainsUnconditionalIDField(sel.SelectionSet) {
+				return true
+			}
+		}
+	}
+	return false
+}
+
+// withDirectives returns the selections with the directives added to each of them
+func withDirectives(selectionSet ast.SelectionSet, directives ast.DirectiveList) ast.SelectionSet {
+	if len(directives) == 0 {
+		return selectionSet
+	}
+	result := make(ast.SelectionSet, 0, len(selectionSet))
+	for _, selection := range selectionSet {
+		switch s := selection.(type) {
+		case *ast.Field:
+			cpy := *s
+			cpy.Directives = append(append(ast.DirectiveList{}, s.Directives...), directives...)
+			result = append(result, &cpy)
+		case *ast.InlineFragment:
+			cpy := *s
+			cpy.Directives = append(append(ast.DirectiveList{}, s.Directives...), directives...)
+			result = append(result, &cpy)
+		default:
+			result = append(result, selection)
+		}
+	}
+	return result
 }
 
 func copySelectionSet(selectionSet ast.SelectionSet) ast.SelectionSet {
